@@ -414,7 +414,7 @@ Definition action_sgn_partial (ev : string) (p : payload) (req : request) : cbre
 
 Definition action_sgn_error (ev : string) (p : payload) (req : request) : cbres :=
   match req with
-  | RSigError pid err created =>
+  | RSigError pid err created batch =>
       match err with
       | None => CbErr p
       | Some e =>
@@ -425,6 +425,8 @@ Definition action_sgn_error (ev : string) (p : payload) (req : request) : cbres 
               match qget (gc_quorum g) pid with
               | None => CbErr p
               | Some part =>
+                  (* a report that names a batch belongs to that batch only *)
+                  if negb (N.eqb batch 0) && negb (N.eqb batch (gc_batch g)) then CbErr p else
                   if negb (N.eqb (gp_status part) SgnAwait) then CbErr p else
                   let part' := {| gp_name := gp_name part; gp_status := SgnError; gp_signs := gp_signs part;
                                   gp_error := Some e; gp_updated := created |} in
